@@ -7,6 +7,9 @@ queue order of dawgie/pl/farm.py to Gallina (coq/Gen/FarmGen.v):
   _cluster_sort.comparator  -> comparator    (+ cluster_sort: list.sort with
                                functools.cmp_to_key = a stable sort, spelled
                                as the insertion sort the model uses)
+  _workers_sort             -> workers_sort  (shape-checked statement by
+                               statement against a template; the comparison
+                               inside the inner loop is read from the source)
 
 Tests are boolean formulas over these atoms (anything else: exit 2):
     msg.revision != dawgie.context.git_rev        negb rev_ok
@@ -53,7 +56,7 @@ EFFECTS = {
 }
 NOEFFECT = ('self.__incarnation = msg.incarnation', 'return')
 
-PRELUDE = '''From Coq Require Import List ZArith Bool.
+PRELUDE = '''From Coq Require Import List Arith ZArith Bool.
 From DV Require Import Model.Sched.
 Import ListNotations.
 (* ---- fixed prelude of the translation ---- *)
@@ -251,7 +254,104 @@ def main():
     out.append(text)
     out.append('Definition cluster_sort (cpu : msg -> Z) (l : list msg) : list msg :=\n'
                '  fold_left (fun acc m => ins_cmp (comparator cpu) m acc) l [].')
+    out += workers_sort(src, top['_workers_sort'])
     print('\n'.join(out))
+
+
+WS_FIXED = [
+    'wg = {wa: [] for wa in set((w.address.host for w in _workers))}',
+    'wk = sorted(wg)',
+    'for worker in _workers:\n    wg[worker.address.host].append(worker)',
+    '_workers.clear()',
+]
+WS_TEMPLATE = '''(* _workers_sort sha256=%(sha)s -- shape-checked statement by statement:
+     wg = {host: [] for host in set(hosts)} ; wk = sorted(wg)
+     for worker in _workers: wg[host of worker].append(worker)
+     _workers.clear()
+     while sum(len(v) for v in wg.values()):
+         longest = []
+         for k in wk:
+             if len(wg[k]) %(op)s len(longest): longest = wg[k]      <- the comparison is read from the source
+         _workers.append(longest.pop(0))
+   A worker is (id, host); wg is an association list whose keys are wk (sorted
+   hosts).  `longest` aliases one of the lists of wg: it is kept as the key of
+   that list (None = the fresh []), pop(0) removes the head of that list in
+   wg.  The while loop runs on fuel = number of workers (every iteration pops
+   one).  None = IndexError (pop from the fresh []) / fuel exhausted. *)
+Definition ws_keys (w : list (wid * nat)) : list nat :=
+  sort_nat (fold_left (fun acc p => add (snd p) acc) w []).
+Fixpoint ws_append (h : nat) (x : wid * nat) (wg : list (nat * list (wid * nat))) :=
+  match wg with
+  | [] => []
+  | (k, g) :: r => if Nat.eqb k h then (k, g ++ [x]) :: r else (k, g) :: ws_append h x r
+  end.
+Definition ws_groups (w : list (wid * nat)) : list (nat * list (wid * nat)) :=
+  fold_left (fun wg worker => ws_append (snd worker) worker wg) w (map (fun k => (k, [])) (ws_keys w)).
+Definition ws_total (wg : list (nat * list (wid * nat))) : nat :=
+  fold_left (fun a kv => a + length (snd kv)) wg 0.
+Definition ws_longest (wg : list (nat * list (wid * nat))) : option nat * list (wid * nat) :=
+  fold_left (fun best kv => if %(cmp)s then (Some (fst kv), snd kv) else best) wg (None, []).
+Fixpoint ws_pop (k : nat) (wg : list (nat * list (wid * nat)))
+  : option ((wid * nat) * list (nat * list (wid * nat))) :=
+  match wg with
+  | [] => None
+  | (k', g) :: r =>
+    if Nat.eqb k' k then match g with [] => None | x :: g' => Some (x, (k', g') :: r) end
+    else match ws_pop k r with Some (x, r') => Some (x, (k', g) :: r') | None => None end
+  end.
+Fixpoint ws_loop (fuel : nat) (wg : list (nat * list (wid * nat))) (acc : list (wid * nat))
+  : option (list (wid * nat)) :=
+  if Nat.eqb (ws_total wg) 0 then Some acc else
+  match fuel with
+  | 0 => None
+  | S f => match fst (ws_longest wg) with
+           | None => None
+           | Some k => match ws_pop k wg with
+                       | None => None
+                       | Some (x, wg') => ws_loop f wg' (acc ++ [x])
+                       end
+           end
+  end.
+Definition workers_sort (w : list (wid * nat)) : option (list (wid * nat)) :=
+  ws_loop (length w) (ws_groups w) [].'''
+
+
+def workers_sort(src, fn):
+    body = [s for s in fn.body if not (isinstance(s, ast.Expr) and isinstance(s.value, ast.Constant))]
+    if fn.args.args or len(body) != 5:
+        raise Unsupported('_workers_sort: %d statements, the translation knows 5' % len(body))
+    got = [ast.unparse(s) for s in body[:4]]
+    if got != WS_FIXED:
+        bad = [g for g, w in zip(got, WS_FIXED) if g != w][0]
+        raise Unsupported('_workers_sort statement changed: ' + bad)
+    wh = body[4]
+    if not (isinstance(wh, ast.While) and not wh.orelse
+            and ast.unparse(wh.test) == 'sum((len(v) for v in wg.values()))'):
+        raise Unsupported('_workers_sort loop header: ' + ast.unparse(wh).split('\n')[0])
+    wb = [s for s in wh.body if not isinstance(s, ast.Pass)]
+    if len(wb) != 3 or ast.unparse(wb[0]) != 'longest = []' \
+            or ast.unparse(wb[2]) != '_workers.append(longest.pop(0))':
+        raise Unsupported('_workers_sort loop body changed')
+    fr = wb[1]
+    if not (isinstance(fr, ast.For) and not fr.orelse and ast.unparse(fr.target) == 'k'
+            and ast.unparse(fr.iter) == 'wk'):
+        raise Unsupported('_workers_sort inner loop header')
+    fb = [s for s in fr.body if not isinstance(s, ast.Pass)]
+    if not (len(fb) == 1 and isinstance(fb[0], ast.If) and not fb[0].orelse
+            and [ast.unparse(x) for x in fb[0].body] == ['longest = wg[k]']):
+        raise Unsupported('_workers_sort inner loop body')
+    t = fb[0].test
+    if not (isinstance(t, ast.Compare) and len(t.ops) == 1 and ast.unparse(t.left) == 'len(wg[k])'
+            and ast.unparse(t.comparators[0]) == 'len(longest)'):
+        raise Unsupported('_workers_sort comparison: ' + ast.unparse(t))
+    g, lg = 'length (snd kv)', 'length (snd best)'
+    ops = {ast.Gt: ('>', '%s <? %s' % (lg, g)), ast.GtE: ('>=', '%s <=? %s' % (lg, g)),
+           ast.Lt: ('<', '%s <? %s' % (g, lg)), ast.LtE: ('<=', '%s <=? %s' % (g, lg)),
+           ast.NotEq: ('!=', 'negb (Nat.eqb %s %s)' % (g, lg)), ast.Eq: ('==', 'Nat.eqb %s %s' % (g, lg))}
+    if type(t.ops[0]) not in ops:
+        raise Unsupported('_workers_sort comparison operator')
+    op, cmp_ = ops[type(t.ops[0])]
+    return [WS_TEMPLATE % {'sha': sha(src, fn), 'op': op, 'cmp': cmp_}]
 
 
 if __name__ == '__main__':
